@@ -245,6 +245,55 @@ def cache_invariant_failures():
     return fails
 
 
+HOLLOW_FILES = ['', '\n', '   \n\t\n', '# nothing yet\n', '\ufeff', '\ufeff\n', '# a\n\n# b\n', 'is_big = amount > 100\n', '\r\n\r\n']
+
+
+def reparse_failures(r, n):
+    """ONE MerchantEngine object given one rules text after another (`parse` / `load_file`, as an editor integration or a watcher does):
+    after every text it classifies as an engine freshly made from THAT text - also when the text holds no rule at all (empty, blank,
+    comments only, a byte order mark, variables only): then nothing is categorised, whatever the object held before."""
+    import tempfile
+    from pathlib import Path
+    from tally import merchant_engine as ME
+    fails = []
+    d = tempfile.mkdtemp(prefix='tvc07r_')
+    try:
+        for i in range(n):
+            txn = GR.gen_txn(r)
+            t = RC.txn_for_engine(txn)
+            texts = []
+            for _ in range(r.choice([2, 3, 4])):
+                texts.append(r.choice(HOLLOW_FILES) if r.random() < 0.4 else GR.render_rules(GR.gen_rules_file(r, txn, n=r.choice([1, 2, 3]))))
+            mode = r.choice(['first_match', 'most_specific'])
+            eng = ME.MerchantEngine(match_mode=mode)
+            for k, text in enumerate(texts):
+                try:
+                    if r.random() < 0.5:
+                        eng.parse(text)
+                    else:
+                        p = os.path.join(d, 'm.rules')
+                        with open(p, 'w', encoding='utf-8', newline='') as fh:
+                            fh.write(text)
+                        eng.load_file(Path(p))
+                    got = RC.result_summary(eng.match(copy.deepcopy(t)))
+                    got['n_rules'] = len(eng.rules)
+                    fresh = ME.parse_merchants(text, mode)
+                    want = RC.result_summary(fresh.match(copy.deepcopy(t)))
+                    want['n_rules'] = len(fresh.rules)
+                except ME.MerchantParseError:
+                    break
+                except Exception:       # noqa  (C08)
+                    break
+                if got != want:
+                    fails.append({'class': 'history-dependent-engine', 'site': 'one engine object re-parsed', 'texts': texts[:k + 1], 'mode': mode,
+                                  'txn': RC.jtxn(txn), 'observed (the re-used object)': got, 'required (a fresh engine on the last text)': want})
+                    return fails
+    finally:
+        import shutil
+        shutil.rmtree(d, ignore_errors=True)
+    return fails
+
+
 def frame_failures(r, n):
     """MerchantEngine.match, evaluate_transaction and apply_transforms on the CALLER's dict: afterwards it is the dict it was
     (same keys, same values, same types) except for what the file's own transforms assign. The date may be a date or — as the
@@ -373,6 +422,16 @@ def run(ctx):
                     if any(before.get(k) != (type(v).__name__, v) for k, v in x.items() if not k.startswith('_raw_') and k not in assigned and k != 'field'):
                         prop_fail.append(dict(ce))
                         break
+            elif 'texts' in ce:
+                from tally import merchant_engine as ME
+                t = RC.txn_for_engine(RC.untxn(ce['txn']))
+                eng = ME.MerchantEngine(match_mode=ce.get('mode', 'first_match'))
+                for text in ce['texts']:
+                    eng.parse(text)
+                got = RC.result_summary(eng.match(copy.deepcopy(t)))
+                want = RC.result_summary(ME.parse_merchants(ce['texts'][-1], ce.get('mode', 'first_match')).match(copy.deepcopy(t)))
+                if got != want:
+                    prop_fail.append(dict(ce, observed=got, required=want))
             elif 'sequence' in ce and 'file' in ce:
                 from tally import merchant_engine as ME
                 text = GR.render_rules(ce['file'])
@@ -445,6 +504,7 @@ def run(ctx):
             except Exception:       # noqa  (an escaping Python exception is C08's business)
                 pass
             nbatch += 1
+        prop_fail.extend(reparse_failures(r, 60 if ctx.quick else 2000))
         prop_fail.extend(cache_invariant_failures())
         prop_fail.extend(frame_failures(r, 80 if ctx.quick else 3000))
     ctx.notes['engine_level_runs_of_near_duplicates'] = nbatch
